@@ -7,6 +7,8 @@ export CARGO_NET_OFFLINE=true
 (cd harness && cargo build --offline 2>&1 | tail -3)
 [ -f harness-off/Cargo.lock ] || cp /repo/Cargo.lock harness-off/Cargo.lock
 (cd harness-off && cargo build --offline 2>&1 | tail -3)
+[ -f sideharness/Cargo.lock ] || cp /repo/Cargo.lock sideharness/Cargo.lock
+(cd sideharness && cargo build --offline 2>&1 | tail -3)
 tlc -h >/dev/null 2>&1 || true
 mkdir -p out evidence
 echo "setup ok"
